@@ -5,7 +5,7 @@ open LV LV.Driver LV.PoolLts
 
 def showSEv : SEv → String
   | .ehlo => "E" | .noop => "N" | .mail i => s!"Ms{i}" | .rcpt => "R" | .rcptRej => "Rx" | .data => "D"
-  | .commit i k => s!"Cs{i}.{k}" | .quit => "Q" | .eof => "Z" | .kill => "K"
+  | .commit i k => s!"C.s{i}.{k}" | .quit => "Q" | .eof => "Z" | .kill => "K"
 
 def showRes : Res → String
   | .ok => "ok" | .perm => "perm" | .err => "err" | .shutdown => "shutdown"
@@ -80,7 +80,9 @@ where
     let who := (m.drop 1).toString
     match rest with
     | "R" :: "D" :: c :: rest' =>
-      if c.startsWith s!"C{who}." then connOracle rest' false else some "transaction-mixes-two-sends"
+      if c.startsWith s!"C.{who}." then connOracle rest' false
+      else if c.startsWith s!"C{who}." then some "message-content-altered-in-transit"
+      else some "transaction-mixes-two-sends"
     | "Rx" :: rest' =>
       (match rest' with | [] | ["Q"] | ["Q", "Z"] | ["Z"] => none | _ => some "connection-used-after-a-failed-command")
     | _ => some "incomplete-or-interleaved-transaction"
@@ -98,7 +100,7 @@ def exactlyOnce (results : String) (conns : List (List String)) : Option String 
     | [who, rs] =>
       let rs := rs.splitOn "."
       rs.zipIdx.findSome? fun (r, k) =>
-        let c := s!"C{who}.{k}"
+        let c := s!"C.{who}.{k}"
         let n := count (· == c) commits
         if r == "ok" && n != 1 then some s!"successful-send-{who}.{k}-committed-{n}-times"
         else if r != "ok" && n != 0 then some s!"failed-send-{who}.{k}-was-committed"
